@@ -4,6 +4,7 @@ import os
 import signal
 import sys
 
+sys.dont_write_bytecode = True
 sys.path.insert(0, os.path.dirname(os.path.abspath(__file__)))
 from _common import (scratch_project, require, emit, run_replay, load_plan,  # noqa: E402
                      quiet_stdout, pid_alive, kill_group_and_reap, children_of)
